@@ -148,7 +148,7 @@ pub fn generate_c04(tier: &str, rng: &mut Prng) -> Vec<Case> {
         // (see below for the special seeds)
         // seeds whose candidate stream touches one of ntru_gen's guards (corpus/special_seeds.txt): a candidate with a zero
         // NTT slot, a Gram-Schmidt norm next to the bound, coefficients at the range limits
-        for (kind, q) in [("ntt_zero", 6), ("gamma_below", 4), ("gamma_above", 4), ("range_fg", 3), ("range_capital", 3), ("f_product_one", 1), ("h_top_zero", 1)] {
+        for (kind, q) in [("ntt_zero", 6), ("ntt_zero_after_solve", 2), ("gamma_below", 4), ("gamma_above", 4), ("range_fg", 3), ("range_capital", 3), ("f_product_one", 1), ("h_top_zero", 1)] {
             for seed in crate::seeds::special(n, tier, kind, q) {
                 let k = keygen_info(n, &seed);
                 let (f, g, cf, cg) = fgfg(&k);
